@@ -120,6 +120,21 @@ def compress (h : List Nat) (block : List Nat) : List Nat :=
   let st := P.roundsLoop ws P.rounds 0 h
   List.zipWith (fun x y => P.modW (x + y)) h st
 
+/-- Message schedule from the 16 block words. -/
+def scheduleW (w0 : List Nat) : List Nat := P.scheduleLoop (P.rounds - 16) w0
+
+/-- Compression function on the 16 block words (what the chips compute: the conversion of the block
+bytes into words is done by the native gadget). -/
+def compressW (h : List Nat) (w0 : List Nat) : List Nat :=
+  let ws := P.scheduleW w0
+  let st := P.roundsLoop ws P.rounds 0 h
+  List.zipWith (fun x y => P.modW (x + y)) h st
+
+/-- The big-endian words of a block. -/
+def blockWords (block : List Nat) : List Nat := (chunks P.wordBytes block).map beValue
+
+theorem compress_eq_compressW (h block : List Nat) : P.compress h block = P.compressW h (P.blockWords block) := rfl
+
 /-- The digest bytes of `msg`. -/
 def digest (msg : List Nat) : List Nat :=
   let blocks := chunks P.blockBytes (P.pad msg)
